@@ -3,7 +3,7 @@
 Workload (fault enumeration): rally's real MechanicActor, Dispatcher, NodeMechanicActor and Mechanic classes run on the
 deterministic actor kernel (engines.simactor). `mechanic.create` builds a real Mechanic whose supplier / provisioners / launcher
 are recording stand-ins, `load_team` returns a stub car, `net.resolve` is the identity. Target-host lists of 1-5 (ip, port) pairs
-over up to 4 hosts (incl. 127.0.0.1 and repeated pairs), remote actor systems joining the convention before or after the
+over up to 4 hosts (incl. 127.0.0.1 - also written as localhost and resolved for real - and repeated pairs), remote actor systems joining the convention before or after the
 dispatcher asked for them (every order), acknowledgement delays from the C01 profiles, and single faults: start fails on host i,
 stop fails on host i, remote daemon i leaves before it was used / after its nodes started, externally provisioned cluster.
 
@@ -196,6 +196,9 @@ def gen_case(rng):
         # other members of the convention that are NOT target hosts (e.g. remote load-driver daemons): the dispatcher hears about them too,
         # possibly after the last target host has shown up
         case["extras"] = [{"ip": f"10.0.9.{i + 1}", "late": rng.random() < 0.5} for i in range(rng.randint(1, 2))]
+    if any(ip == "127.0.0.1" for ip, _ in pairs) and rng.random() < 0.25:
+        # the local target host is written by name (rally's own error text suggests 'localhost:9200'); the name goes through the real net.resolve
+        case["local_name"] = "localhost"
     return case
 
 
@@ -225,7 +228,8 @@ def run_case(case, scratch):
 
     patch(mechanic, "create", make_create(env))
     patch(mechanic, "load_team", lambda cfg, external: (None, []))
-    patch(net, "resolve", lambda h: h)
+    real_resolve = net.resolve
+    patch(net, "resolve", lambda h: real_resolve(h) if h == "localhost" else h)  # ips stand for themselves, a name is resolved for real
 
     def cleanup(preserve, install_dir, data_paths):
         env.ev("cleanup", install_dir.split("/")[-1].rsplit("-", 1)[0].replace("-", ":", 1) if False else install_dir, preserve=preserve, data_paths=list(data_paths))
@@ -239,7 +243,7 @@ def run_case(case, scratch):
         cfg.add(s, "system", "time.start", datetime.datetime(2026, 1, 1))
         cfg.add(s, "system", "race.id", f"c12-{case['seed']}")
         cfg.add(s, "node", "rally.root", paths.rally_root())
-        cfg.add(s, "client", "hosts", opts.TargetHosts(",".join(f"{ip}:{port}" for ip, port in case["pairs"])))
+        cfg.add(s, "client", "hosts", opts.TargetHosts(",".join(f"{case['local_name'] if case.get('local_name') and ip == '127.0.0.1' else ip}:{port}" for ip, port in case["pairs"])))
         cfg.add(s, "mechanic", "repository.revision", "abc123")
         cfg.add(s, "mechanic", "preserve.install", case.get("preserve", False))
         cfg.add(s, "mechanic", "car.names", ["defaults"])
@@ -460,6 +464,8 @@ def one_case(ctx, case):
     ips = {ip for ip, _ in case["pairs"]}
     if "127.0.0.1" in ips and len(ips) > 1:
         feats.add("local-and-remote")
+    if case.get("local_name"):
+        feats.add("local-host-by-name")
     ctx.distinct("delivery-order-fingerprints", repr(tuple(res["kernel"].fingerprint)))
     ctx.case(case, len(hosts) >= 2 or case["fault"]["kind"] != "none", feats)
     ctx.sample({"case": case, "observed": {"replies": [(r[0], round(r[1], 3), r[2]) for r in res["replies"]], "calls": [(round(e["vt"], 3), e["kind"], e["host"]) for e in res["env"].log][:14]}},
